@@ -272,6 +272,7 @@ def norm_package(run, twin=None):
 # get_module over an abstract file system
 
 Exists = z3.Function('candidate_exists', Int, Int, z3.BoolSort())     # (root index, candidate index)
+ParentAt = z3.Function('root_holds_the_parent_package_or_module', Int, z3.BoolSort())
 
 
 class RootList(Proxy):
@@ -358,6 +359,30 @@ finally:
 '''
 
 
+PARENT_REPLAY = '''import sys, os, tempfile, shutil, importlib.machinery; sys.path.insert(0, %(repo)r)
+from supp.project import Project
+d = tempfile.mkdtemp(prefix='supp-c07-')
+try:
+    r1, r2 = os.path.join(d, 'r1'), os.path.join(d, 'r2')
+    os.makedirs(os.path.join(r1, 'clash')); os.makedirs(r2)
+    open(os.path.join(r1, 'clash', '__init__.py'), 'w').close(); open(os.path.join(r1, 'clash', 'inner.py'), 'w').close()
+    open(os.path.join(r2, 'clash.py'), 'w').close()
+    roots = [r2, r1]
+    parent = importlib.machinery.PathFinder.find_spec('clash', roots)
+    want = None
+    if parent is not None and parent.submodule_search_locations:
+        s = importlib.machinery.PathFinder.find_spec('clash.inner', list(parent.submodule_search_locations))
+        want = s.origin if s else None
+    try: got = Project(roots).get_module('clash.inner').filename
+    except ImportError: got = None
+    if got != want:
+        print('REPRODUCED: roots [r2, r1], r2/clash.py is a module, r1/clash/inner.py exists: supp analyses %%r, importlib finds %%r' %% (got, want)); sys.exit(1)
+    print('not reproduced')
+finally:
+    shutil.rmtree(d, ignore_errors=True)
+'''
+
+
 @harness(['C07', 'C09'], 'supp.project.Project.get_module', twins=('spec-last-root-wins',))
 def get_module(run, twin=None):
     """cache miss: the module analysed is the file importlib's path finder would load: the FIRST root (source roots, then sys.path, in
@@ -368,7 +393,9 @@ def get_module(run, twin=None):
     cache hits: the per-request cache first, then the module cache unless the module's file changed"""
     import supp.project as Pj
     run.trust(T_FS)
-    run.concretise = lambda model, ob: {'input': 'two roots holding a package and a module of one name, both orders', 'script': GETMOD_REPLAY % {'repo': core.REPO}}
+    run.concretise = lambda model, ob: ({'input': 'roots [r2, r1] with r2/clash.py and r1/clash/inner.py', 'script': PARENT_REPLAY % {'repo': core.REPO}}
+                                        if 'holds-the-parent' in ob.name else
+                                        {'input': 'two roots holding a package and a module of one name, both orders', 'script': GETMOD_REPLAY % {'repo': core.REPO}})
     SUF = list(Pj.SUFFIXES)
     NC = len(SUF) + 1
     roots = RootList()
@@ -414,6 +441,8 @@ def get_module(run, twin=None):
         r, c1, c2 = z3.Int('ur'), z3.Int('uc1'), z3.Int('uc2')
         # domain: at most one candidate per root
         axiom(z3.ForAll([r, c1, c2], z3.Implies(z3.And(Exists(r, c1), Exists(r, c2), c1 >= 0, c1 < NC, c2 >= 0, c2 < NC), c1 == c2)))
+        # domain: no namespace packages - a root that holds pkg/mod.* holds the package pkg
+        axiom(z3.ForAll([r, c1], z3.Implies(z3.And(Exists(r, c1), c1 >= 0, c1 < NC), ParentAt(r))))
         name = Name('pkg.mod')
 
         class Self(object):
@@ -453,6 +482,10 @@ def get_module(run, twin=None):
                 r2, c2 = z3.Int('lr'), z3.Int('lc')
                 first = z3.And(Exists(fn.r, z3.IntVal(ci)), z3.ForAll([r2, c2], z3.Implies(z3.And(r2 > fn.r, r2 < roots.n, c2 >= 0, c2 < NC), z3.Not(Exists(r2, c2)))))
             prove('first-root-with-a-candidate', first, clause='the file analysed is the candidate of the first root that has one', path=p)
+            r3 = z3.Int('pr')
+            prove('no-earlier-root-holds-the-parent', z3.ForAll([r3], z3.Implies(z3.And(r3 >= 0, r3 < fn.r), z3.Not(ParentAt(r3)))),
+                  clause='importlib searches a dotted name only inside the parent it resolved first: no earlier root may hold the parent '
+                         '(as a module, or as a package without this child)', path=p)
             prove('source-candidates-are-analysed-as-source', z3.And(z3.BoolVal(fn.kind[1] in ('.py', '__init__.py')), z3.Not(dyn)),
                   clause='only .py files / package __init__.py of non-dynamic names are analysed as source', path=p)
         elif m[0] == 'imported':
